@@ -1102,7 +1102,16 @@ def _k2(ctx: Context) -> None:
                     gcfg = ctx.cfg(g.qualname)
                     argmap = {("param", g.pos_params[i]): a for i, a in enumerate(t[2])}
                     sites = [(g, gcfg, rn, strip_sites(T.of(gcfg, rn, rn.exprs[0])), argmap) for rn in gcfg.nodes if rn.kind == "return" and rn.exprs and not rn.copy_of]
+            # a conditional expression chooses the form inside one statement: each arm is a form site, gated by the
+            # expression's own test instead of a branch of the graph
+            sites2 = []
             for sf, scfg, snode, st_, argmap in sites:
+                if st_[0] == "ifexp":
+                    sites2.append((sf, scfg, snode, st_[2], argmap, (st_[1], True)))
+                    sites2.append((sf, scfg, snode, st_[3], argmap, (st_[1], False)))
+                else:
+                    sites2.append((sf, scfg, snode, st_, argmap, None))
+            for sf, scfg, snode, st_, argmap, egate in sites2:
                 sfk = ctx.fkey(sf)
                 sloc = ctx.loc(sf, snode)
                 where = "_connect_once" if argmap is None else f"{sf.name} (called from _connect_once)"
@@ -1139,6 +1148,19 @@ def _k2(ctx: Context) -> None:
                     present, _absent = _truth_edges(ctx, cfg, hc)
                     ctx.must_pass("C09.K2", cfg, node, "peer address test [not None outcome]", present,
                                   desc=f"_connect_once ({form}): the address is known when the Host header is built")
+                if egate is not None:
+                    ct, arm = egate
+                    ct = strip_sites(ct)
+                    is_colon = ct[0] == "cmp" and len(ct[1]) == 1 and ct[1][0] in ("In", "NotIn") and ct[2] == (("const", ":"), h)
+                    if not is_colon:
+                        ck.unknown("C09.K2", f"{where}: the form is chosen by `{show(ct, 80)}`, not by a test of ':' in the address: not decided", sloc)
+                        continue
+                    has_colon = arm == (ct[1][0] == "In")
+                    ck.check("C09.K2", has_colon == (form == "bracketed"),
+                             f"{where}: the {form} form is chosen exactly when ':' in h is {'true' if form == 'bracketed' else 'false'}",
+                             f"{sfk}:host-form-choice:{form}",
+                             f"{where}: the {form} Host form is chosen when ':' in h is {'true' if has_colon else 'false'}", sloc)
+                    continue
                 colon, nocolon = [], []
                 for n in scfg.nodes:
                     if n.kind != "test":
@@ -1701,6 +1723,13 @@ _CF = "aiohomekit/controller/ip/connection.py"
 _PF = "aiohomekit/controller/ip/pairing.py"
 _HEADERS = '                ("Content-Length", len(body)),\n                ("Content-Type", content_type.value),\n'
 VARIANTS = [
+    {
+        "name": "Host form chosen by a conditional template, arms the wrong way round",
+        "file": _CF,
+        "old": '        if ":" in connected_host:\n            self.host_header = f"Host: [{connected_host}]"\n        else:\n            self.host_header = f"Host: {connected_host}"\n',
+        "new": '        self.host_header = ("Host: {}" if ":" in connected_host else "Host: [{}]").format(connected_host)\n',
+        "expect": "C09.K2",
+    },
     # ---- Appendix A
     {
         "name": "the two entity headers swapped (put)",
